@@ -6,7 +6,7 @@ use crate::model::{
     graph::{
         inlines_to_markdown, GraphBlock, GraphInline, GraphInlines,
     },
-    is_ref_url,
+    is_ref_url, Level,
 };
 use crate::model::config::MarkdownOptions;
 use crate::model::node::ColumnAlignment;
@@ -246,7 +246,7 @@ fn link_type(link_type: document::LinkType) -> pulldown_cmark::LinkType {
     }
 }
 
-fn header_level(level: u8) -> HeadingLevel {
+fn header_level(level: Level) -> HeadingLevel {
     match level {
         1 => HeadingLevel::H1,
         2 => HeadingLevel::H2,
